@@ -6,6 +6,7 @@ import (
 	"fmt"
 	"math"
 	"reflect"
+	"sort"
 	"strings"
 	"testing"
 
@@ -39,6 +40,9 @@ type WalkCase struct {
 	// IntNumbers: the whole numbers of the state and of the messages are
 	// Go integers (a Go host built them), not the float64 of JSON (C06 only)
 	IntNumbers bool `json:"intNumbers,omitempty"`
+	// Repeat (C05 only): the batch is the listed messages this many times
+	// over - walks of thousands of steps under a limit to match
+	Repeat int `json:"repeat,omitempty"`
 }
 
 func genWalkWith(t *rapid.T, o sm.SpecOpts) WalkCase {
@@ -113,7 +117,58 @@ func emittedOf(w *core.Walked) []string {
 // ---------------------------------------------------------------- C05
 
 func genWalk(t *rapid.T) WalkCase {
+	// (an interior value: rapid draws the ends of a range far more often)
+	if rapid.IntRange(0, 199).Draw(t, "long") == 137 {
+		return genLongWalk(t)
+	}
 	return genWalkWith(t, sm.SpecOpts{Deterministic: true, NativeToo: true, Fail: 2, GuardFail: 1, Emit: true, UserErrorNode: true, ArrayVar: true, Ext: true, Lively: rapid.IntRange(0, 3).Draw(t, "lively") > 0})
+}
+
+// genLongWalk: walks of hundreds to thousands of steps under a limit to
+// match.  The machine is built for it - a counter whose bindings stay
+// small (a generated machine whose bindings grow makes every step dearer
+// than the one before): a message node, then 1-3 action nodes that count,
+// emit and come back.
+func genLongWalk(t *rapid.T) WalkCase {
+	a := &sm.ASpec{Name: "long", Nodes: map[string]*sm.ANode{}}
+	chain := rapid.IntRange(1, 3).Draw(t, "chain")
+	a.Nodes["start"] = &sm.ANode{BranchType: "message", Branches: []sm.ABranch{
+		{HasPattern: true, Pattern: map[string]interface{}{"a": "?x"}, Target: "a1"},
+		{HasPattern: true, Pattern: map[string]interface{}{"skip": true}, Target: "start"}}}
+	for i := 1; i <= chain; i++ {
+		next := "start"
+		if i < chain {
+			next = fmt.Sprintf("a%d", i+1)
+		}
+		ops := []sm.Op{{Op: "inc", K: "n"}}
+		if rapid.Bool().Draw(t, fmt.Sprintf("emits%d", i)) {
+			ops = append(ops, sm.Op{Op: "emitOf", K: "n"}, sm.Op{Op: "emitOf", K: "?x"})
+		}
+		if i == chain {
+			ops = append(ops, sm.Op{Op: "del", K: "?x"})
+		}
+		a.Nodes[fmt.Sprintf("a%d", i)] = &sm.ANode{Action: &sm.Prog{Ops: ops}, ActionNative: rapid.Bool().Draw(t, fmt.Sprintf("native%d", i)),
+			BranchType: "bindings", Branches: []sm.ABranch{{Target: next}}}
+	}
+	c := WalkCase{Spec: a, Node: "start", Bs: map[string]interface{}{"n": 0.0}}
+	for i := rapid.IntRange(1, 6).Draw(t, "nm"); i > 0; i-- {
+		c.Messages = append(c.Messages, rapid.SampledFrom([]interface{}{
+			map[string]interface{}{"a": 1.0}, map[string]interface{}{"a": "b"}, map[string]interface{}{"skip": true}, map[string]interface{}{"other": 1.0},
+		}).Draw(t, fmt.Sprintf("m%d", i)))
+	}
+	c.Repeat = rapid.SampledFrom([]int{100, 200, 400}).Draw(t, "repeat")
+	c.Limit = rapid.SampledFrom([]int{700, 1500, 4000, 20000}).Draw(t, "longLimit")
+	if total := len(c.Messages) * c.Repeat; total > 2 {
+		seen := map[int]bool{}
+		for i := rapid.IntRange(0, 3).Draw(t, "ncuts"); i > 0; i-- {
+			if at := rapid.IntRange(1, total-1).Draw(t, fmt.Sprintf("cut%d", i)); !seen[at] {
+				seen[at] = true
+				c.Cuts = append(c.Cuts, at)
+			}
+		}
+		sort.Ints(c.Cuts)
+	}
+	return c
 }
 
 func checkWalk(c WalkCase) (v ev.Verdict) {
@@ -121,6 +176,14 @@ func checkWalk(c WalkCase) (v ev.Verdict) {
 	if err != nil {
 		v.Failf("spec does not compile: %v", err)
 		return
+	}
+	if c.Repeat > 1 {
+		once := c.Messages
+		c.Messages = nil
+		for i := 0; i < c.Repeat; i++ {
+			c.Messages = append(c.Messages, once...)
+		}
+		v.Class("long-walk")
 	}
 	ctx := context.Background()
 	start := &core.State{NodeName: c.Node, Bs: match.Bindings(jsongen.CopyMap(c.Bs))}
